@@ -125,6 +125,10 @@ func (o op) String() string {
 		return fmt.Sprintf("next tty write fails after %d bytes", o.Seed)
 	case "reset-same":
 		return fmt.Sprintf("SetContent(%d,%d, what it holds)", o.X, o.Y)
+	case "restyle-ul":
+		return fmt.Sprintf("SetContent(%d,%d, what it holds but underline %d colour %v)", o.X, o.Y, o.CS, o.Col)
+	case "dollar-run":
+		return fmt.Sprintf("text \"$<%d>/\" at (%d,%d)", o.Seed, o.X, o.Y)
 	case "suspend-resume":
 		return fmt.Sprintf("Suspend; window %dx%d (0 = unchanged, back=%v); Resume; Clear", o.W, o.H, o.Quiet)
 	}
@@ -182,6 +186,9 @@ func drawStyle(t *rapid.T) lm.Style {
 				s.UlC = tcell.NewRGBColor(int32(rapid.IntRange(0, 255).Draw(t, "ur")), int32(rapid.IntRange(0, 255).Draw(t, "ug")), 7)
 			default:
 				s.UlC = tcell.ColorReset
+				if rapid.Bool().Draw(t, "ulcbig") {
+					s.UlC = tcell.PaletteColor(rapid.IntRange(256, 2000).Draw(t, "ulcbigidx"))
+				}
 			}
 		}
 	}
@@ -238,8 +245,20 @@ func drawOps(t *rapid.T, maxW, maxH int, withResize bool) []op {
 				op{Kind: "cursor", X: rapid.IntRange(sw, maxW-1).Draw(t, "growcx"), Y: rapid.IntRange(0, maxH-1).Draw(t, "growcy")},
 				op{Kind: "resize", W: maxW, H: maxH, Quiet: true}, op{Kind: "show"})
 		case k >= 34:
-			// store again exactly what the cell already holds
-			ops = append(ops, op{Kind: "reset-same", X: rapid.IntRange(0, maxW-1).Draw(t, "sx"), Y: rapid.IntRange(0, maxH-1).Draw(t, "sy")})
+			o := op{Kind: "reset-same", X: rapid.IntRange(0, maxW-1).Draw(t, "sx"), Y: rapid.IntRange(0, maxH-1).Draw(t, "sy")}
+			switch rapid.IntRange(0, 3).Draw(t, "samekind") {
+			case 0:
+				// the same content, only the underline differs (its style and colour)
+				o.Kind = "restyle-ul"
+				o.CS = tcell.CursorStyle(rapid.IntRange(1, 5).Draw(t, "newul"))
+				o.Col = rapid.SampledFrom([]tcell.Color{tcell.ColorDefault, tcell.ColorRed, tcell.NewRGBColor(1, 200, 3), tcell.PaletteColor(700)}).Draw(t, "newulc")
+			case 1:
+				// text that merely looks like a padding specification
+				o.Kind = "dollar-run"
+				o.Seed = rapid.IntRange(0, 9).Draw(t, "dollardigit")
+			}
+			// (default: store again exactly what the cell already holds)
+			ops = append(ops, o)
 		case k == 32 && withResize:
 			// the terminal is lent to another program and taken back
 			o := op{Kind: "suspend-resume"}
@@ -362,6 +381,7 @@ type dw struct {
 	lastLocked   []bool
 	dirtyHist    bool // a Sync, resize, corruption or default-style change since the previous Show
 	corrupted    bool
+	drewDollar   bool     // the history itself drew "$<n>" as text
 	scratches    [][]rune // combining slices passed to SetContent, reused after the next Show
 	lost         bool     // a tty write failed: the terminal missed (part of) a frame
 	writeFault   bool     // a write fault fired since the last Show/Sync was judged
@@ -466,7 +486,7 @@ func newDW(cfg hx.Config, ch *simrt.Chooser, prop string) (*dw, error) {
 	w.M = lm.New(cfg.W, cfg.H)
 	w.S.TraceOn = hx.Replaying()
 	w.Tty.OnWrite = func(g string, b []byte) {
-		if i := bytes.Index(b, []byte("$<")); i >= 0 && prop != "C04" {
+		if i := bytes.Index(b, []byte("$<")); i >= 0 && prop != "C04" && !w.drewDollar {
 			end := i + 12
 			if end > len(b) {
 				end = len(b)
@@ -948,6 +968,26 @@ func (w *dw) appActor() {
 					sc.SetContent(o.X, o.Y, c.R, append([]rune(nil), c.Comb...), c.St.Build())
 					w.M.SetContent(o.X, o.Y, c.R, c.Comb, c.St)
 				}
+			}
+		case "restyle-ul":
+			if w.M.In(o.X, o.Y) {
+				if c := w.M.At(o.X, o.Y); !c.Unknown && !c.StyleUncon {
+					st := c.St
+					if st.IsZero() {
+						st.Fg = tcell.ColorGreen // (a cell of its own style, so that the underline is the cell's)
+					}
+					st.Ul, st.UlC = tcell.UnderlineStyle(o.CS), o.Col
+					st.Attrs |= tcell.AttrUnderline
+					sc.SetContent(o.X, o.Y, c.R, append([]rune(nil), c.Comb...), st.Build())
+					w.M.SetContent(o.X, o.Y, c.R, c.Comb, st)
+				}
+			}
+		case "dollar-run":
+			// legitimate cell content: from here on "$<" on the wire proves nothing
+			w.drewDollar = true
+			for i, r := range []rune{'$', '<', rune('0' + o.Seed), '>', '/'} {
+				sc.SetContent(o.X+i, o.Y, r, nil, tcell.StyleDefault)
+				w.M.SetContent(o.X+i, o.Y, r, nil, lm.Style{})
 			}
 		case "fill":
 			sc.Fill(o.R, o.St.Build())
